@@ -178,6 +178,8 @@ pub fn siqs(
 }
 
 fn sieve_a(s: &SieveSIQS, a_int: &Uint, factors: &Factors) {
+    #[cfg(yamaquasi_verif)]
+    simsync::probe::unit_begin("siqs_a");
     let mm = s.interval_size;
     let a = &prepare_a(factors, a_int, s.fbase, -(mm as i64) / 2);
     if s.prefs.verbose(Verbosity::Debug) {
